@@ -52,6 +52,9 @@ struct EmcyRun : NodeEnv {
         else if (k == "clr") { size_t e = (size_t)o.arg(0) % tbl.size(); bool was = act[e]; w.cur = 0; COEmcyClr(&N()->Emcy, (uint8_t)e); if (was) { bool sib = false; for (size_t i = 0; i < act.size(); i++) if (i != e && act[i] && tbl[i].first == tbl[e].first) sib = true; if (sib) { cov.hit("clear-with-sibling-active"); nontrivial = true; } act[e] = false; if (mayEmit()) exp.push_back(mkFrame(0, nullptr)); } else cov.hit("clear-inactive"); }
         else if (k == "reset") { bool silent = o.arg(0) != 0; w.cur = 0; COEmcyReset(&N()->Emcy, silent ? 1 : 0); for (size_t i = 0; i < act.size(); i++) if (act[i]) { act[i] = false; if (!silent && mayEmit()) exp.push_back(mkFrame(0, nullptr)); } cov.hit(silent ? "reset-silent" : "reset-loud"); }
         else if (k == "nmt") { uint8_t cs = (uint8_t)o.arg(0); deliver(Frame(0, 2, {cs, 0})); if (cs == 1) m = M_OP; else if (cs == 2) m = M_STOP; else if (cs == 128) m = M_PREOP; else if (cs == 129 || cs == 130) { m = M_PREOP; for (size_t i = 0; i < act.size(); i++) act[i] = false; cov.hit("nmt-reset"); } }
+        else if (k == "restart") {   // the application restarts the stack on the same node memory: CONodeStop, CONodeInit, CONodeStart - a fresh start: no active error, register clear, empty history
+            w.cur = 0; CONodeStop(N()); S().rx.clear(); w.setraw(0, 0x1001, 0, 0); for (int q = 0; q <= depth; q++) if (w.ospec(0, 0x1003, (uint8_t)q)) w.setraw(0, 0x1003, (uint8_t)q, 0);   /* the dictionary RAM belongs to the application: its start-up code re-initialises it, CONodeInit does not */
+            w.init(0); w.start(0); (void)CONodeGetErr(N()); m = M_PREOP; for (size_t i = 0; i < act.size(); i++) act[i] = false; hist.clear(); cov.hit("restart-on-same-memory"); nontrivial = true; frames = false; }
         else if (k == "sendfail") { S().sendFail = (int)o.arg(0); cov.hit("F5-send-failure-armed"); return; }
         else if (k == "rd1001") { if (m != M_PREOP && m != M_OP) return; uint32_t val = 0; uint32_t ab = sdoRead(0x1001, 0, val); if (ab != 0 || val != reg()) fail("emcy/register-sdo", "SDO read of 1001h gives " + hex(val) + " (abort " + hex(ab) + "), model " + hex(reg())); }
         else if (k == "rd1003") {
@@ -87,7 +90,7 @@ Plan gen_emcy(Rng &r, bool thorough) {
         int c = (int)r.below(24);
         if (c < 8) { Op s("set", {(int64_t)r.below((uint32_t)ne), (int64_t)r.below(2), (int64_t)r.below(0x10000)}); for (int j = 0; j < 5; j++) s.b.push_back(r.byte()); p.ops.push_back(s); }
         else if (c < 13) p.ops.push_back(Op("clr", {(int64_t)r.below((uint32_t)ne)}));
-        else if (c == 13) p.ops.push_back(Op("reset", {(int64_t)r.below(2)}));
+        else if (c == 13) p.ops.push_back(r.chance(1, 4) ? Op("restart") : Op("reset", {(int64_t)r.below(2)}));
         else if (c == 14) p.ops.push_back(Op("nmt", {r.pick<int64_t>({1, 2, 128, 128, 129, 130})}));
         else if (c == 15) p.ops.push_back(Op("rd1001"));
         else if (c < 20) p.ops.push_back(Op("rd1003", {(int64_t)r.below(10)}));
